@@ -120,10 +120,12 @@ def make_device(dspec, cache=True, with_mesh=True):
 
 
 def stable_dt(device):
-    """u / (sqrt(1+gamma^2) * rho_Gershgorin): scale of the explicit-scheme stability limit."""
+    """u / (sqrt(1+gamma^2) * (rho_Gershgorin + 2)): scale of the explicit-scheme stability limit.
+    rho bounds the spectrum of the Laplacian; the +2 is the linearised reaction term (epsilon - 3|psi|^2 = -2 at
+    psi = 1), which dominates on meshes whose cells are much larger than the coherence length."""
     rho = orc.gershgorin_rho(device.mesh)
     lay = device.layer
-    return lay.u / (np.sqrt(1 + lay.gamma**2) * rho)
+    return lay.u / (np.sqrt(1 + lay.gamma**2) * (rho + 2.0))
 
 
 # ----------------------------------------------------------------------------- drives
@@ -177,14 +179,10 @@ def exact_currents(cspec):
     return {n: q * int(m) for n, m in cspec["mult"].items()}
 
 
-def _profile(cspec, t_total=None):
-    prof = cspec.get("profile", "ramp")
-    if "t0_frac" in cspec and t_total:
-        t0 = float(cspec["t0_frac"]) * float(t_total)
-    else:
-        t0 = float(cspec.get("t0", 1.0))
-
+def _profile(prof, t0):
     def factor(t):
+        if prof == "const":
+            return 1.0
         if prof == "step":
             return 1.0 if t >= t0 else 0.0
         if prof == "ramp":
@@ -193,26 +191,51 @@ def _profile(cspec, t_total=None):
             return float(np.sin(t / t0))
         if prof == "pulse":  # full current first, then a smaller one of opposite sign, then off
             return 1.0 if t < t0 else (-0.5 if t < 2 * t0 else 0.0)
+        if prof == "stairs":  # piecewise constant, changes every t0/2
+            return float(int(2 * t / t0) % 4) / 4.0
         return 1.0
 
     return factor
 
 
+def _t0(c, t_total):
+    if "t0_frac" in c and t_total:
+        return float(c["t0_frac"]) * float(t_total)
+    return float(c.get("t0", 1.0))
+
+
+def currents_at(cspec, t, t_total=None):
+    """The terminal currents (floats, user units) a spec stands for at time t:
+       base currents (integer multiples of a decimal quantum, exact sum 0) times a common profile, plus an optional
+       'shift' that moves current from one terminal to another with its own profile (the other terminals keep theirs)."""
+    if cspec is None:
+        return {}
+    # "generic": arbitrary floats (the last one minus the float sum of the others) instead of multiples of a quantum
+    ex = cspec["generic"] if cspec.get("generic") else exact_currents(cspec)
+    if cspec["kind"] == "dict":
+        return {n: float(v) for n, v in ex.items()}
+    f = _profile(cspec.get("profile", "ramp"), _t0(cspec, t_total))(t)
+    out = {n: float(v) * f for n, v in ex.items()}
+    sh = cspec.get("shift")
+    if sh:
+        g = _profile(sh.get("profile", "stairs"), _t0(sh, t_total))(t)
+        amount = float(Fraction(cspec["quantum"]) * int(sh["mult"])) * g
+        out[sh["to"]] = out[sh["to"]] + amount
+        out[sh["from"]] = out[sh["from"]] - amount
+    return out
+
+
 def make_currents(cspec, t_total=None):
     """Terminal currents for the solver from a spec:
-       None | {"kind":"dict","quantum":str,"mult":{name:int}} | {"kind":"callable", ..., "profile": ..., "t0"|"t0_frac": float}
+       None | {"kind":"dict","quantum":str,"mult":{name:int}} | {"kind":"callable", ..., "profile": ..., "t0"|"t0_frac": float, "shift": {...}}
     Floats are produced the way a user would write them: float(int * decimal quantum)."""
     if cspec is None:
         return None
-    ex = exact_currents(cspec)
-    vals = {n: float(v) for n, v in ex.items()}
     if cspec["kind"] == "dict":
-        return vals
-    factor = _profile(cspec, t_total)
+        return currents_at(cspec, 0.0)
 
     def currents(t):
-        f = factor(t)
-        return {n: v * f for n, v in vals.items()}
+        return currents_at(cspec, t, t_total)
 
     return currents
 
@@ -222,7 +245,7 @@ def current_factor(cspec, t, t_total=None):
         return 0.0
     if cspec["kind"] == "dict":
         return 1.0
-    return _profile(cspec, t_total)(t)
+    return _profile(cspec.get("profile", "ramp"), _t0(cspec, t_total))(t)
 
 
 def make_epsilon(espec):
